@@ -170,7 +170,7 @@ def run(spec_case, ctx):
         C["models_generated"] += 1
         key_hint = None
         kinds = {f["kind"] for c in spec["classes"] for f in c["fields"]}
-        if "self_list" in kinds:
+        if any(f["kind"] in ("self_list", "list_ref", "set_ref") and f["target"] == c["name"] for c in spec["classes"] for f in c["fields"]):
             key_hint = "self-list-duplicate-association-column"
         elif not (kinds & {"int", "str", "float", "bool", "opt_int", "opt_str", "opt_float", "list_str", "list_int"}):
             key_hint = "no-builtin-field-unresolved-builtins"
